@@ -122,3 +122,16 @@ func PoolHit() {
 		s.NPoolHit++
 	}
 }
+
+// SeqStart is the start value of a "random" RTP sequencer (the overlay rewrites
+// rtp.NewRandomSequencer() to rtp.NewFixedSequencer(SeqStart())): drawn from the
+// run's library PRNG inside a simulation, so that RTX sequence numbers are a
+// function of the plan.  Like pion/rtp it uses only the lower half of the range.
+//
+//go:norace
+func SeqStart() uint16 {
+	if s := S; s != nil {
+		return uint16(s.LibUint64()%(1<<15-2)) + 1
+	}
+	return 1
+}
